@@ -13,7 +13,7 @@ theorem callConnectionHandler_eq {σ} (cfg : Cfg) (app : App σ) (env : IdleEnv)
     (c'.state = c.state ∨ c'.state = .closed ∨ (c.state = .headersProcessed ∧ c'.state = .startReply)) ∧
     (c'.state = c.state → c.response = none → c'.clientAware = true ∧
        ∃ r, Protocol.run p l = .req r ∧ r.handlerSeen = true) := by
-  have hinv : Inv c := by cases p <;> simp_all [Rel]
+  have hinv : Inv c := by cases p <;> simp_all [Rel, respOrUpg]
   unfold callConnectionHandler at heq
   cases hr : c.response with
   | some r0 =>
@@ -36,20 +36,20 @@ theorem callConnectionHandler_eq {σ} (cfg : Cfg) (app : App σ) (env : IdleEnv)
       simp only [Inv] at hinv
       rcases hsite with ⟨rfl, hst⟩ | ⟨rfl, hst⟩
       · cases p with
-        | idle => simp_all [Rel, Protocol.handlerStep, stateSite]
+        | idle => simp_all [Rel, respOrUpg, Protocol.handlerStep, stateSite]
         | req q =>
           have := Site.rank_le_two q.site
-          simp_all [Rel, Protocol.handlerStep, stateSite]
-        | _ => simp_all [Rel]
+          simp_all [Rel, respOrUpg, Protocol.handlerStep, stateSite]
+        | _ => simp_all [Rel, respOrUpg]
       · cases p with
-        | idle => simp_all [Rel, Protocol.handlerStep, stateSite]
+        | idle => simp_all [Rel, respOrUpg, Protocol.handlerStep, stateSite]
         | req q =>
           have := Site.rank_le_two q.site
           have hseen : q.handlerSeen = true := by
-            cases hh : q.handlerSeen <;> simp_all [Rel] <;> grind
-          simp_all [Rel, Protocol.handlerStep, stateSite]
+            cases hh : q.handlerSeen <;> simp_all [Rel, respOrUpg] <;> grind
+          simp_all [Rel, respOrUpg, Protocol.handlerStep, stateSite]
           grind
-        | _ => simp_all [Rel]
+        | _ => simp_all [Rel, respOrUpg]
     cases hact : d.act with
     | cont =>
       simp [hact] at heq
@@ -58,7 +58,7 @@ theorem callConnectionHandler_eq {σ} (cfg : Cfg) (app : App σ) (env : IdleEnv)
       simp only [run_cons, run_nil, hq]
       simp only [Inv] at hinv
       rcases hsite with ⟨rfl, hst⟩ | ⟨rfl, hst⟩ <;>
-        simp_all [Rel, Inv, stateSite, Site.rank]
+        simp_all [Rel, Inv, respOrUpg, stateSite, Site.rank]
     | fail =>
       simp [hact] at heq
       generalize hce : closeError _ = rr at heq
@@ -79,7 +79,7 @@ theorem callConnectionHandler_eq {σ} (cfg : Cfg) (app : App σ) (env : IdleEnv)
       unfold suspendConn
       by_cases hal : cfg.allowSuspend = true <;>
       (rcases hsite with ⟨rfl, hst⟩ | ⟨rfl, hst⟩ <;>
-        simp_all [Rel, Inv, stateSite])
+        simp_all [Rel, Inv, respOrUpg, stateSite])
     | reply r retIfRefused =>
       simp [hact] at heq
       unfold queueResponse at heq
@@ -97,7 +97,7 @@ theorem callConnectionHandler_eq {σ} (cfg : Cfg) (app : App σ) (env : IdleEnv)
         simp only [run_cons, run_nil, hq, step_req_queued, q5, Bool.false_eq_true, if_false]
         simp only [Inv] at hinv
         rcases hsite with ⟨rfl, hst⟩ | ⟨rfl, hst⟩ <;>
-          simp_all [Rel, Inv, stateSite]
+          simp_all [Rel, Inv, respOrUpg, stateSite]
       · -- refused: the handler's own return value decides
         have hq0 : (if env.shutdown = true then ((c : Conn σ), ([] : List LEv), false) else
                      if (!r.valid) = true then (c, [], false) else (c, [], true)) = (c, [], false) ∨ True := Or.inr trivial
@@ -112,7 +112,7 @@ theorem callConnectionHandler_eq {σ} (cfg : Cfg) (app : App σ) (env : IdleEnv)
             simp only [run_cons, run_nil, hq]
             simp only [Inv] at hinv
             rcases hsite with ⟨rfl, hst⟩ | ⟨rfl, hst⟩ <;>
-              simp_all [Rel, Inv, stateSite]
+              simp_all [Rel, Inv, respOrUpg, stateSite]
           | false =>
             simp at heq
             generalize hce : closeError _ = rr at heq
@@ -135,7 +135,7 @@ theorem callConnectionHandler_eq {σ} (cfg : Cfg) (app : App σ) (env : IdleEnv)
             simp only [run_cons, run_nil, hq]
             simp only [Inv] at hinv
             rcases hsite with ⟨rfl, hst⟩ | ⟨rfl, hst⟩ <;>
-              simp_all [Rel, Inv, stateSite]
+              simp_all [Rel, Inv, respOrUpg, stateSite]
           | false =>
             simp at heq
             generalize hce : closeError _ = rr at heq
@@ -154,7 +154,7 @@ theorem Rel.congr {σ} {c c2 : Conn σ} {p : PSt} (h : Rel c p)
     (e4 : c2.state = c.state) (e5 : c2.clientAware = c.clientAware) (e6 : c2.ctx = c.ctx)
     (e7 : c2.upOff = c.upOff) (e8 : c2.response = c.response) (e9 : c2.stopWithError = c.stopWithError)
     (e10 : c2.discard = c.discard) : Rel c2 p := by
-  cases p <;> simp only [Rel, Inv, e1, e2, e3, e4, e5, e6, e7, e8, e9, e10] at h ⊢ <;> exact h
+  cases p <;> simp only [Rel, Inv, respOrUpg, e1, e2, e3, e4, e5, e6, e7, e8, e9, e10] at h ⊢ <;> exact h
 
 theorem callApp_upload_eq {σ} (cfg : Cfg) (app : App σ) (env : IdleEnv) (c : Conn σ) (p : PSt) (offered : Nat)
     (h : Rel c p) (hs : c.started = true) (hc : c.cleaned = false) (hst : c.state = .bodyReceiving)
@@ -163,7 +163,7 @@ theorem callApp_upload_eq {σ} (cfg : Cfg) (app : App σ) (env : IdleEnv) (c : C
     (heq : callApp cfg app env c .upload offered = (c1, l, ret, taken)) :
     Open c1 (Protocol.run p l) ∧ (ret = true → Rel c1 (Protocol.run p l)) ∧ c1.state = .bodyReceiving ∧
     c1.started = true ∧ c1.cleaned = false ∧ (c1.stopWithError = true → c1.discard = true) := by
-  have hinv : Inv c := by cases p <;> simp_all [Rel]
+  have hinv : Inv c := by cases p <;> simp_all [Rel, respOrUpg]
   simp only [Inv] at hinv
   have hresp : c.response = none := by
     cases hq : c.response <;> simp_all
@@ -180,37 +180,37 @@ theorem callApp_upload_eq {σ} (cfg : Cfg) (app : App σ) (env : IdleEnv) (c : C
     | req q =>
       have := Site.rank_le_two q.site
       have hseen : q.handlerSeen = true := by
-        cases hh : q.handlerSeen <;> simp_all [Rel] <;> grind
+        cases hh : q.handlerSeen <;> simp_all [Rel, respOrUpg] <;> grind
       have : min d.take offered ≤ offered := Nat.min_le_right _ _
-      simp_all [Rel, Protocol.handlerStep, stateSite]
+      simp_all [Rel, respOrUpg, Protocol.handlerStep, stateSite]
       grind
-    | _ => simp_all [Rel]
+    | _ => simp_all [Rel, respOrUpg]
   cases hact : d.act with
   | cont =>
     simp [hact] at heq
     obtain ⟨rfl, rfl, rfl, rfl⟩ := heq
     obtain ⟨q, hq, q1, q2, q3, q4, q5, q6⟩ := hstep true
     simp only [run_cons, run_nil, hq]
-    simp_all [Rel, Inv, Open, stateSite]
+    simp_all [Rel, Inv, respOrUpg, Open, stateSite]
   | fail =>
     simp [hact] at heq
     obtain ⟨rfl, rfl, rfl, rfl⟩ := heq
     obtain ⟨q, hq, q1, q2, q3, q4, q5, q6⟩ := hstep false
     simp only [run_cons, run_nil, hq]
-    simp_all [Rel, Inv, Open, stateSite]
+    simp_all [Rel, Inv, respOrUpg, Open, stateSite]
   | suspend =>
     simp [hact] at heq
     obtain ⟨rfl, rfl, rfl, rfl⟩ := heq
     obtain ⟨q, hq, q1, q2, q3, q4, q5, q6⟩ := hstep true
     simp only [run_cons, run_nil, hq]
     unfold suspendConn
-    by_cases hal : cfg.allowSuspend = true <;> simp_all [Rel, Inv, Open, stateSite]
+    by_cases hal : cfg.allowSuspend = true <;> simp_all [Rel, Inv, respOrUpg, Open, stateSite]
   | reply r retIfRefused =>
     simp [hact, queueResponse, hresp, hst] at heq
     obtain ⟨rfl, rfl, rfl, rfl⟩ := heq
     obtain ⟨q, hq, q1, q2, q3, q4, q5, q6⟩ := hstep retIfRefused
     simp only [run_cons, run_nil, hq]
-    cases retIfRefused <;> simp_all [Rel, Inv, Open, stateSite]
+    cases retIfRefused <;> simp_all [Rel, Inv, respOrUpg, Open, stateSite]
 
 
 end Mhd.ConnSM
